@@ -1,7 +1,14 @@
 """Property -> units table.  Each entry: verus units (modules under /verif/units),
 kani units (quick / thorough), evidence level and the technique string."""
 
+HTOK_T = 'contract-based deductive verification (Verus): simulation of the WHATWG tokenizer machine by the verbatim-extracted Tokenizer code'
+
 PROPS = {
+    'C01': dict(verus=['u_small', 'u_htok'], level='proof', technique=HTOK_T),
+    'C03': dict(verus=['u_small', 'u_bq', 'u_htok'], level='proof', technique=HTOK_T),
+    'C04': dict(verus=['u_small', 'u_bq', 'u_htok'], level='proof', technique=HTOK_T),
+    'C08': dict(verus=['u_htok'], level='proof', technique=HTOK_T),
+    'C09': dict(verus=['u_htok'], level='proof', technique=HTOK_T),
     'C13': dict(
         verus=['u_small', 'u_bq'],
         kani_quick=[], kani_thorough=[],
